@@ -835,7 +835,10 @@ extern "C" void *__wrap_mremap(void *old, size_t old_len, size_t new_len, int fl
   island_release(oi);
   G.st.mremap_moves++;
   c->mremap_moves++;
-  if (G.w.sabotage == 1) return stale;
+  if (G.w.sabotage == 1) {
+    G.st.sabotage_applied++;
+    return stale;
+  }
   return ni->base;
 }
 
